@@ -3,7 +3,7 @@
 import json, os, subprocess, sys
 HERE = os.path.dirname(os.path.dirname(os.path.abspath(__file__)))
 
-BASE_TRUST = "rustc/std, proptest 1.11 (generation + shrinking), the independent reference model rsv::refmodel (own GF(2^16) arithmetic from 0x1002D + Cantor basis; self-tested at every start), the verif-hooks lines in /repo"
+BASE_TRUST = "rustc/std, proptest 1.11 (generation + shrinking), the independent reference model rsv::refmodel (own GF(2^16) arithmetic from 0x1002D + Cantor basis; self-tested at every start), the verif-hooks lines in /repo; every check runs its cases in an optimised build with debug assertions and overflow checks and repeats a quarter as many in a second build without them (wrapping arithmetic)"
 
 def C(technique, text, ref, extra_trust=""):
     return dict(technique=technique, text=text, ref=ref, note=BASE_TRUST + (("; " + extra_trust) if extra_trust else ""))
@@ -40,10 +40,10 @@ CHECKS = {
           "Generated argument tuples built from a valid base with injected faults, with and without recovery shards, passed through four kinds of iterator (slice, loose size_hint, no size_hint, re-entrant), including MiB-sized shards and count pairs on the envelope boundary; streaming Ok => identical result; streaming Err => truthful error; never Ok on faulty input. Exploration.",
           "DESIGN.md 4 C10"),
  "C11": C("property-based metamorphic testing over arrival permutations and supersets",
-          "One encoded instance decoded under two generated arrival orders, a generated superset and the all-originals case; results must be identical / restricted / empty; part corner_supersets does it on every staircase corner of the envelope with the superset of all 65536 shards. Exploration of permutations and supersets.",
+          "One encoded instance decoded under two generated arrival orders, a generated superset and the all-originals case; results must be identical / restricted / empty; part corner_supersets does it on every staircase corner of the envelope with the superset of all 65536 shards, part many_long_supersets on thousands of shards of 2..6 KiB. Exploration of permutations and supersets.",
           "DESIGN.md 4 C11"),
  "C12": C("model-based property testing of the accessor contract over generated probes and consecutive rounds",
-          "Generated configurations, received sets, index probes up to usize::MAX and up to 20 consecutive rounds on one encoder and decoder; accessors and iterators must agree with the model exactly; part iter_protocol drives both result iterators with generated sequences of std Iterator operations, 22 consuming methods called directly on partly consumed iterators, and two interleaved iterators, against a model iterator. Exploration.",
+          "Generated configurations, received sets, index probes up to usize::MAX and up to 20 consecutive rounds on one encoder and decoder; accessors and iterators must agree with the model exactly; part iter_protocol drives both result iterators with generated sequences of std Iterator operations, 22 consuming methods called directly on partly consumed iterators, two interleaved iterators, and (where the iterator types offer it) next_back mixed with next, against a model iterator. Exploration.",
           "DESIGN.md 4 C12"),
  "C13": C("property-based metamorphic testing (linearity: xor, zero, scalar multiple with independent field arithmetic)",
           "Oracle-free algebraic laws over generated data pairs and constants for all families, engines and sizes. Exploration.",
@@ -55,7 +55,7 @@ CHECKS = {
           "Tables exhaustively equal their definitions; mul for every log_m (all symbols in thorough); fft/ifft against LCH-basis polynomial evaluation; eval_poly against the erasure-locator log sum modulo 65535. Tables/mul exhaustive, transforms explored.",
           "DESIGN.md 4 C15"),
  "C16": C("generated stress programs in fresh child processes (racing lazy table initialisation, hand-over mid-round), sequential-result oracle",
-          "Generated thread programs are run in fresh processes so every program races first-touch initialisation; results must equal sequential execution and the child must exit 0; systematic hammer programs (every engine x family x encoder/decoder, thousands of shards, 48 threads, one-shot calls that wait for each other, rounds completed inside thread-local destructors while the thread exits) and, in thorough, ThreadSanitizer builds. The OS picks the schedules: this is stress exploration and cannot enumerate interleavings; a watchdog hit is inconclusive.",
+          "Generated thread programs are run in fresh processes so every program races first-touch initialisation; results must equal sequential execution and the child must exit 0; systematic hammer programs (every engine x family x encoder/decoder, thousands of shards, 48 / 160 / 300 threads, one-shot calls that wait for each other, rounds completed inside thread-local destructors while the thread exits) and, in thorough, ThreadSanitizer builds. The OS picks the schedules: this is stress exploration and cannot enumerate interleavings; a watchdog hit is inconclusive.",
           "DESIGN.md 4 C16", "the OS scheduler for interleavings"),
  "C17": C("stateful metamorphic property testing with a counting global allocator (measured need; allocation in fitting regions must not scale with the configuration)",
           "Generated histories of resets, recycling and rounds; executed at three scales (as generated, shard sizes x3, counts x2): whenever the measured need of the target does not exceed what the object has held before, the bytes allocated in the region must not grow with the scale (a fixed-size scratch is tolerated, shard-proportional memory is not); part big_resets does the same for working spaces up to 512 MiB / 4 GiB; part long_runs measures runs of up to 2100 / 66000 rounds or fitting resets as one region. Exploration.",
